@@ -66,8 +66,9 @@ TJStart == IsEvent("j_start") /\ JStart(E.j) /\ Keep
 TJLoad == IsEvent("j_cload") /\ JLoad(E.j) /\ (E.b = 1) = cancel /\ Keep
 TOpBegin == IsEvent("op_begin") /\ JOpBegin(E.j) /\ Keep
 TOpEnd == IsEvent("op_end") /\ JOpEnd(E.j) /\ E.outcome = outcome[E.j] /\ Keep
-TJProgress == IsEvent("j_progress") /\ JProgress(E.j) /\ (E.b = 1) = (jres[E.j] = "fail") /\ Keep
-TJSend == IsEvent("j_send") /\ JSend(E.j) /\ (E.b = 1) = (jres[E.j] = "fail") /\ Keep
+KindCode(j) == CASE jres[j] = "ok" -> 0 [] jres[j] = "fail" -> 1 [] OTHER -> 2
+TJProgress == IsEvent("j_progress") /\ JProgress(E.j) /\ E.b = KindCode(E.j) /\ Keep
+TJSend == IsEvent("j_send") /\ JSend(E.j) /\ E.b = KindCode(E.j) /\ Keep
 TJStore == IsEvent("j_cstore") /\ JStore(E.j) /\ Keep
 
 \* the user (here: the operation of job E.j, while it runs) cancels the batch
